@@ -39,7 +39,7 @@ C["C01"] = dict(level="other",
  bounds={"calls per connection": "quick 2, thorough 3", "payload": "1 symbolic byte per call (client), 1 or 10 bytes (server)", "initial sequence number": "quick 0; thorough: any 64-bit value (symbolic)", "framing": "2 frames, payloads 0..2 and 1..2 bytes, every chunking of the stream", "schedules": SCHED, "pool policy": "sync.Pool LIFO reuse (maximal aliasing)"},
  outside=["TCP itself, the auto-batching writer of hslam/writer", "more outstanding calls than the bound", "Transport/Client wrappers (address routing is C14/C16)", "payloads larger than the stated sizes (header codecs at all boundaries: C07)"],
  runs={"quick": [run("CLI", labels=CLI_C01), run("SRV", labels=SRV_C01), run("FRAM")],
-       "thorough": [run("CLI", params={"cli.K": 3}, labels=CLI_C01, budget=900), run("CLI", params={"cli.symseq": 1}, labels=CLI_C01, budget=900), run("SRV", params={"srv.N": 3, "srv.kinds": 4}, labels=SRV_C01, budget=1200), run("FRAM")]})
+       "thorough": [run("CLI", params={"cli.K": 3}, labels=CLI_C01, budget=900), run("CLI", params={"cli.symseq": 1}, labels=CLI_C01, budget=900), run("SRV", params={"srv.N": 3, "srv.kinds": 3, "srv.arglens": 1, "srv.bufsizes": 1}, labels=SRV_C01, budget=1200), run("FRAM")]})
 
 C["C02"] = dict(level="other",
  explanation="Symbolic execution of the real Conn code over the stub socket: K asynchronous calls; the environment delivers a bounded script of frames whose sequence numbers are chosen freely (own, duplicate, unknown), with or without error text, a write may fail, the peer may disconnect, the read may fail, the client may Close; every macro-step interleaving is explored. In every terminal state each call's Done channel holds the call exactly once. Each violation is attributed to the set of code sites that signalled the call (watch on (*Call).done).",
@@ -56,9 +56,9 @@ C["C03"] = dict(level="other",
  rule="one case = one feasible path (caller kinds x answered count x cut kind x mode x schedule)",
  assumptions=COMMON_ASSUME + ["'bounded time' is rendered as 'not blocked in any terminal state'", "cuts are at frame granularity (n whole frames, then the read fails); byte-level cuts are the framing layer's business (C01 FRAM run)"],
  stubs=["zzMsgs (socket.Messages)", "zzBytesCodec"],
- bounds={"callers": "2 (thorough 3)", "cut": "after 0..K responses", "modes": "default, directIO, client pipelining", "schedules": SCHED},
+ bounds={"callers": "2 of either kind (thorough: 3 plain callers)", "cut": "after 0..K responses", "modes": "default, directIO, client pipelining", "schedules": SCHED},
  outside=["wall-clock bounds", "TLS/ws framing"],
- runs={"quick": [run("C03"), run("STRc", labels=["reader-unblocked", "blocked-read-returns-shutdown"])], "thorough": [run("C03", params={"c03.K": 3}, budget=1500), run("STRc", P=1, gran=1, params={"str.N": 1, "str.badwrite": 0}, labels=["reader-unblocked", "blocked-read-returns-shutdown"], budget=600)]})
+ runs={"quick": [run("C03"), run("STRc", labels=["reader-unblocked", "blocked-read-returns-shutdown"])], "thorough": [run("C03", params={"c03.K": 3, "c03.pings": 0}, budget=1800), run("STRc", P=1, gran=1, params={"str.N": 1, "str.badwrite": 0}, labels=["reader-unblocked", "blocked-read-returns-shutdown"], budget=600)]})
 
 C["C04"] = dict(level="other",
  explanation="Symbolic execution of the real server path ServeCodec -> ServeRequest -> handleRequest -> readRequestBody -> callService -> sendResponse with the real serverCodec: N request frames of every kind (each handler shape, failing handler, unknown method, ping), symbolic argument bytes, all server modes (pipelining x directIO x context buffer x buffer size), frames arriving together or one by one; the execution log must contain exactly one entry per executable request with that request's own argument bytes, pings none, and the write log exactly one response per request with its sequence number.",
@@ -67,7 +67,7 @@ C["C04"] = dict(level="other",
  stubs=["zzMsgs", "funcs model", "zzBytesCodec", "hslam/log"],
  bounds={"requests": "quick 2, thorough 3", "args": "1 or 10 symbolic bytes", "modes": "pipelining x directIO x shared x bufsize{8,64}", "schedules": SCHED},
  outside=["handler bodies and reflection internals", "poll mode (C05 SRVp and stream harnesses only)", "Client.Call never retries: covered through the CLT harness's one-roundtrip-per-call label under C16"],
- runs={"quick": [run("SRV", params={"srv.kinds": 8}, labels=SRV_C04 + ["rejected-request-not-answered"]), run("SRV", params={"srv.N": 3, "srv.kinds": 3, "srv.menu": 1}, labels=SRV_C04 + ["rejected-request-not-answered", "panic"]), run("TRretry")], "thorough": [run("SRV", params={"srv.N": 3, "srv.kinds": 8}, labels=SRV_C04 + ["rejected-request-not-answered"], budget=3000), run("TRretry"), run("TRretry", P=1, gran=1)]})
+ runs={"quick": [run("SRV", params={"srv.kinds": 8}, labels=SRV_C04 + ["rejected-request-not-answered"]), run("SRV", params={"srv.N": 3, "srv.kinds": 3, "srv.menu": 1}, labels=SRV_C04 + ["rejected-request-not-answered", "panic"]), run("TRretry")], "thorough": [run("SRV", params={"srv.N": 3, "srv.kinds": 8, "srv.arglens": 1, "srv.bufsizes": 1}, labels=SRV_C04 + ["rejected-request-not-answered"], budget=3000), run("TRretry"), run("TRretry", P=1, gran=1)]})
 
 C["C05"] = dict(level="other",
  explanation="Server: SRV harness with pipelining on and handlers that yield in the middle: executions never overlap, execution order and response order (pings excepted: they are not executed and may be answered by the decode worker) equal arrival order. Client: CLI harness with SetPipelining: calls issued by one goroutine on a shared Done channel must be signalled in issue order for every mix of success and server-reported error.",
@@ -77,7 +77,7 @@ C["C05"] = dict(level="other",
  bounds={"requests / calls": "2 (thorough 3)", "schedules": SCHED},
  outside=["ping responses relative to call responses", "write failures / connection loss in the client order (C02 harness covers completion, not order)"],
  runs={"quick": [run("SRV", params={"srv.pipelining": 1}, labels=SRV_C05), run("CLI", labels=["pipelined-completion-order"]), run("SRVp", labels=SRV_C05 + ["one-response-per-request", "no-extra-or-missing-execution"]), run("SRVp", P=1, gran=1, labels=SRV_C05 + ["one-response-per-request", "no-extra-or-missing-execution"], budget=300)],
-       "thorough": [run("SRV", params={"srv.pipelining": 1, "srv.N": 3, "srv.kinds": 4}, labels=SRV_C05, budget=1500), run("CLI", params={"cli.K": 3}, labels=["pipelined-completion-order"], budget=900), run("SRVp", P=2, gran=1, params={"srv.N": 2}, labels=SRV_C05 + ["one-response-per-request", "no-extra-or-missing-execution"], budget=1500), run("SRVp", P=1, gran=1, params={"srv.N": 3, "srvp.yield": 1}, labels=SRV_C05 + ["one-response-per-request", "no-extra-or-missing-execution"], budget=1500)]})
+       "thorough": [run("SRV", params={"srv.pipelining": 1, "srv.N": 3, "srv.kinds": 6, "srv.arglens": 1, "srv.bufsizes": 1}, labels=SRV_C05, budget=1500), run("CLI", params={"cli.K": 3}, labels=["pipelined-completion-order"], budget=900), run("SRVp", P=2, gran=1, params={"srv.N": 2}, labels=SRV_C05 + ["one-response-per-request", "no-extra-or-missing-execution"], budget=1500), run("SRVp", P=1, gran=1, params={"srv.N": 3, "srvp.yield": 1}, labels=SRV_C05 + ["one-response-per-request", "no-extra-or-missing-execution"], budget=1500)]})
 
 C["C06"] = dict(level="other",
  explanation="Client: for a response frame with error text E exactly the call with that sequence number fails, Error.Error() equals E byte for byte when read after all further frames have been processed (pool reuse), Reply is untouched, the neighbour call gets its own reply. Server: every failure path (handler error, unknown method, undecodable arguments) yields exactly one response with the server-side text. A request that cannot be encoded fails only that call and NumCalls returns to its previous value.",
@@ -87,7 +87,7 @@ C["C06"] = dict(level="other",
  bounds={"calls": "2 (thorough 3)", "schedules": SCHED, "pool policy": "LIFO reuse"},
  outside=["json header (copies strings)", "reply marshal errors"],
  runs={"quick": [run("CLI", labels=["error-text-of-own-call", "reply-untouched-on-error", "no-error", "reply-of-own-args"]), run("SRV", params={"srv.kinds": 7}, labels=SRV_C06), run("C06w"), run("C06x")],
-       "thorough": [run("CLI", params={"cli.K": 3}, labels=["error-text-of-own-call", "reply-untouched-on-error", "no-error", "reply-of-own-args"], budget=900), run("SRV", params={"srv.kinds": 7, "srv.N": 3}, labels=SRV_C06, budget=2400), run("C06w"), run("C06x"), run("C06x", P=1, gran=1, budget=900)]})
+       "thorough": [run("CLI", params={"cli.K": 3}, labels=["error-text-of-own-call", "reply-untouched-on-error", "no-error", "reply-of-own-args"], budget=900), run("SRV", params={"srv.kinds": 7, "srv.N": 3, "srv.arglens": 1, "srv.bufsizes": 1}, labels=SRV_C06, budget=2400), run("C06w"), run("C06x"), run("C06x", P=1, gran=1, budget=900)]})
 
 C["C07"] = dict(level="other",
  explanation="Bounded symbolic execution of the real header encoders/decoders (default pbRequest/pbResponse + checkBuffer, 'pb' = GOGOPBCodec wrapper, 'code' request/response, upgrade byte, and the clientCodec/serverCodec glue) from go/ssa: field contents, the 64-bit sequence number (symbolic inside each varint size class), stale scratch-buffer contents and flags are z3 bit-vector variables; field lengths and capacities are case-split over the stated menu. Obligations per path: no panic, decode(encode(m)) = m, output byte-equal to an independent reference encoder of the documented formats, in-place when the buffer suffices and nothing written past Size().",
@@ -138,7 +138,7 @@ C["C11"] = dict(level="other",
  bounds={"message length": "1..3 (C11m), 1 or 10 (handler args)", "further traffic": "2 messages / 1-2 frames"},
  outside=["NoCopy modes (excluded by the property)", "user code calling FreeContextBuffer"],
  runs={"quick": [run("C11m"), run("SRV", labels=["handler-args-stable"]), run("SRV", params={"srv.N": 3, "srv.kinds": 1, "srv.exactfit": 1}, labels=["handler-args-stable"]), run("C11c"), run("STRc", labels=["messages-in-order-unmodified"]), run("STRs", params={"str.W": 2, "str.R": 2}, labels=["handler-messages-in-order-unmodified", "pushes-in-order-unmodified"]), run("CLI", labels=["reply-of-own-args"]), run("C19", labels=["own-reply", "reply-placed-in-context-buffer", "nothing-written-past-reply-length", "small-buffer-untouched"])],
-       "thorough": [run("C11m"), run("SRV", params={"srv.N": 3, "srv.kinds": 4}, labels=["handler-args-stable"], budget=1500), run("SRV", params={"srv.N": 3, "srv.kinds": 1, "srv.arglens": 4, "srv.bufsizes": 4}, labels=["handler-args-stable"], budget=1500), run("C11c", params={"c11c.N": 4}, budget=900), run("STRc", params={"str.N": 3}, labels=["messages-in-order-unmodified"]), run("STRs", params={"str.W": 2, "str.R": 3}, labels=["handler-messages-in-order-unmodified", "pushes-in-order-unmodified"]), run("CLI", params={"cli.K": 3}, labels=["reply-of-own-args"], budget=900), run("C19", labels=["own-reply", "reply-placed-in-context-buffer", "nothing-written-past-reply-length", "small-buffer-untouched"])]})
+       "thorough": [run("C11m"), run("SRV", params={"srv.N": 3, "srv.kinds": 4, "srv.arglens": 1, "srv.bufsizes": 1}, labels=["handler-args-stable"], budget=1500), run("SRV", params={"srv.N": 3, "srv.kinds": 2, "srv.exactfit": 1}, labels=["handler-args-stable"], budget=1500), run("C11c", params={"c11c.N": 4}, budget=900), run("STRc", params={"str.N": 3}, labels=["messages-in-order-unmodified"]), run("STRs", params={"str.W": 2, "str.R": 3}, labels=["handler-messages-in-order-unmodified", "pushes-in-order-unmodified"]), run("CLI", params={"cli.K": 3}, labels=["reply-of-own-args"], budget=900), run("C19", labels=["own-reply", "reply-placed-in-context-buffer", "nothing-written-past-reply-length", "small-buffer-untouched"])]})
 
 C["C12"] = dict(level="other",
  explanation="Projection of C12 that symbolic execution can reach: (i) DialWithOptions and ListenWithOptions, run on the same Options value from a menu covering registered names, unregistered names with constructors, constructors only and both, build codecs with the same body-codec and header-encoder types and a registered name wins over a constructor on both ends; (ii) the server harness's oracle (replies, errors, executions) does not depend on the mode vector (pipelining x directIO x context buffer x buffer size smaller/larger than the message), so passing it in every mode is mode independence; buffer sizes in the header glue: C07.",
@@ -147,7 +147,7 @@ C["C12"] = dict(level="other",
  stubs=["stub socket/listener", "zzMsgs", "funcs model", "zzBytesCodec"],
  bounds={"options menu": "3 network forms x 5 codec forms x 5 header-encoder forms x 3 buffer sizes", "server modes": "16 mode vectors"},
  outside=["equivalence across tcp/unix/http/ws/inproc and TLS: real sockets, crypto/tls, net/http, websocket framing cannot be encoded", "json/xml/msgp body codecs (reflection)"],
- runs={"quick": [run("C12opt"), run("SRV", labels=SRV_ALL)], "thorough": [run("C12opt"), run("SRV", params={"srv.N": 3, "srv.kinds": 4}, labels=SRV_ALL, budget=1500)]})
+ runs={"quick": [run("C12opt"), run("SRV", labels=SRV_ALL)], "thorough": [run("C12opt"), run("SRV", params={"srv.N": 3, "srv.kinds": 3, "srv.arglens": 1}, labels=SRV_ALL, budget=1500)]})
 
 TR_C13 = ["open-conns-within-MaxConnsPerHost", "idle-conns-within-MaxIdleConnsPerHost"]
 TR_C14 = ["sent-only-to-requested-address", "reply-ok", "failure-is-shutdown", "recovers-after-one-failure-per-pooled-conn", "down-fails-with-dial-or-shutdown"]
@@ -225,7 +225,7 @@ C["C20"] = dict(level="other",
  bounds={"histories": "as in the C03, TR, CLT harnesses; server: 2 connections, 1 request"},
  outside=["OS sockets", "poll servers (excluded by the property)"],
  runs={"quick": [run("C03", labels=["every-goroutine-exits", "socket-closed", "second-close-reports-ErrShutdown", "repeated-close-reports-ErrShutdown"]), run("C20srv"), run("TR", params={"tr.S": 2}, labels=["close-closes-every-connection", "all-goroutines-exit-after-close"]), run("CLT", params={"clt.S": 2}, labels=["all-goroutines-exit-after-close", "transport-closed", "second-close-nil"])],
-       "thorough": [run("C03", params={"c03.K": 3}, labels=["every-goroutine-exits", "socket-closed", "second-close-reports-ErrShutdown", "repeated-close-reports-ErrShutdown"], budget=1500), run("C20srv"), run("TR", labels=["close-closes-every-connection", "all-goroutines-exit-after-close"]), run("CLT", params={"clt.S": 3}, labels=["all-goroutines-exit-after-close", "transport-closed", "second-close-nil"], budget=1500)]})
+       "thorough": [run("C03", params={"c03.K": 3, "c03.pings": 0}, labels=["every-goroutine-exits", "socket-closed", "second-close-reports-ErrShutdown", "repeated-close-reports-ErrShutdown"], budget=1800), run("C20srv"), run("TR", labels=["close-closes-every-connection", "all-goroutines-exit-after-close"]), run("CLT", params={"clt.S": 3}, labels=["all-goroutines-exit-after-close", "transport-closed", "second-close-nil"], budget=1500)]})
 
 json.dump(C, open('/verif/checks.json', 'w'), indent=1)
 print("wrote checks for", sorted(C))
